@@ -176,16 +176,19 @@ Definition group_rows (with_count : bool) (J : list jrow) : list (list Z) :=
   uniq_adj (sort_rows (map (fun j => [j_key j; j_rc j; j_sum J (j_key j) (j_rc j)]) J ++
                        (if with_count then map (fun j => [j_key j; RC_COUNT; j_count J (j_key j)]) J else []))).
 
-(* the joined and filtered rows; key = how the handler groups them *)
-Definition usage_join (d : db) (p : Z) (user : option Z) (keep : consumer -> bool) (key : consumer -> Z)
+(* the joined and filtered rows; keep = filter on the consumer's type, key = how the handler groups
+   (both functions of the consumer's type, None = NULL consumer_type_id) *)
+Definition usage_join (d : db) (p : Z) (user : option Z) (keep : option Z -> bool) (key : option Z -> Z)
   : list jrow :=
   flat_map (fun a => match find_cons d (a_cons a) with
                      | Some k =>
                          if (c_proj k =? p) && (match user with Some w => c_user k =? w | None => true end)
-                            && keep k
-                         then [mkJ (key k) (a_cons a) (a_rc a) (a_used a)] else []
+                            && keep (c_type k)
+                         then [mkJ (key (c_type k)) (a_cons a) (a_rc a) (a_used a)] else []
                      | None => []
                      end) (allocs d).
+
+Definition is_untyped (t : option Z) : bool := match t with None => true | Some _ => false end.
 
 (* get_total_usages; usage._get_all_by_project_user / _get_by_consumer_type *)
 Definition v_usages (d : db) (v p : Z) (user : option Z) (ct : option Z) : rview :=
@@ -197,14 +200,12 @@ Definition v_usages (d : db) (v p : Z) (user : option Z) (ct : option Z) : rview
     end
   else
     match ct with
-    | None => mkView 200 [] (group_rows true (usage_join d p user (fun _ => true) (fun k => oz (c_type k))))
+    | None => mkView 200 [] (group_rows true (usage_join d p user (fun _ => true) oz))
     | Some t =>
         if t =? CT_ALL then mkView 200 [] (group_rows true (usage_join d p user (fun _ => true) (fun _ => CT_ALL)))
         else if t =? CT_UNKNOWN then
-          mkView 200 [] (group_rows true (usage_join d p user
-                                            (fun k => match c_type k with None => true | Some _ => false end)
-                                            (fun _ => CT_UNKNOWN)))
-        else mkView 200 [] (group_rows true (usage_join d p user (fun k => oeqb (c_type k) (Some t)) (fun _ => t)))
+          mkView 200 [] (group_rows true (usage_join d p user is_untyped (fun _ => CT_UNKNOWN)))
+        else mkView 200 [] (group_rows true (usage_join d p user (fun ty => oeqb ty (Some t)) (fun _ => t)))
     end.
 
 (* ---------------------------------------------------------------- dispatcher *)
